@@ -945,9 +945,14 @@ func Vacuum(ctx context.Context, tableName string, beforeTime time.Time) error {
 		return fmt.Errorf("table not found: %s", tableName)
 	}
 
-	if beforeTime.Before(time.Unix(0, 0)) || !TimeInRange(beforeTime) {
-		// the rows vacuum removes are marked with a time before every cutoff
-		return fmt.Errorf("before_time out of range (1970-01-01 to 2262-04-11): %s", beforeTime.Format(SQLiteTimeFormat))
+	// Every stored time lies within what nanoseconds since 1970 can hold, so a cutoff
+	// beyond that range means the same as the nearest end of it. It has to be later
+	// than the time that the rows vacuum removes are marked with.
+	if beforeTime.After(maxTime) {
+		beforeTime = maxTime
+	}
+	if !beforeTime.After(minTime) {
+		beforeTime = minTime.Add(time.Nanosecond)
 	}
 	if !table.S3Options.ReadOnly && table.Tree.Root.IsDirty() {
 		return fmt.Errorf("table has uncommitted changes: %s", tableName)
@@ -983,7 +988,7 @@ func Vacuum(ctx context.Context, tableName string, beforeTime time.Time) error {
 			row := v.Value.(*v1proto.Row)
 			rowTime := time.Unix(0, v.ModEpochNanos)
 			if row.Deleted && rowTime.Add(row.DeleteUpdateOffset.AsDuration()).Before(beforeTime) {
-				err = db.Tombstone(ctx, time.Time{}, k)
+				err = db.Tombstone(ctx, minTime, k)
 				if err != nil {
 					return fmt.Errorf("tombstone %v: %w", k, err)
 				}
